@@ -4,6 +4,7 @@ extern "C" int LLVMFuzzerInitialize(int *, char ***) { init_jwks(); return 0; }
 extern "C" int LLVMFuzzerTestOneInput(const uint8_t *data, size_t size) {
   init_jwks();
   if (size < 1) return 0;
+  G_PAGEGUARD = (data[0] >> 6) & 1;
   load_with_oracle(data[0] & 7, (data[0] >> 3) & 1, std::string((const char *)data + 1, size - 1), (data[0] >> 4) & 1, (data[0] >> 5) & 1);
   return 0;
 }
